@@ -128,71 +128,8 @@ class ReedMullerDecoder(BaseBlockDecoder[ReedMullerCodeEncoder]):
             correctly. The actual construction of these partitions is based on the
             recursive structure of Reed-Muller codes and their relation to finite geometries.
         """
-        # This is a simplified implementation of Reed partitions generation
-        # In a full implementation, this would depend on the specific parameters
-        # of the Reed-Muller code (r, m)
-
-        # For demonstration purposes, we'll create a basic structure
-        # A real implementation would compute these based on the code properties
-        partitions = []
-
-        # Example partitioning logic - would need to be replaced with actual Reed-Muller partitioning
-        m = 0
-        r = 0
-
-        # Try to infer Reed-Muller parameters from code length and dimension
-        # For an (r,m) Reed-Muller code:
-        # - Length n = 2^m
-        # - Dimension k = sum(i=0 to r) of binomial(m,i)
-
-        # Infer m from code length
-        n = self.code_length
-        temp_m = 0
-        while 2**temp_m < n:
-            temp_m += 1
-        if 2**temp_m == n:
-            m = temp_m
-
-        # Given m, try to infer r from dimension
-        if m > 0:
-            k = self.code_dimension
-            temp_r = 0
-            temp_k = 0
-            while temp_k < k and temp_r <= m:
-                # Add binomial coefficient (m choose temp_r)
-                from math import comb
-
-                temp_k += comb(m, temp_r)
-                if temp_k == k:
-                    r = temp_r
-                    break
-                temp_r += 1
-
-        # Generate partitions based on Reed-Muller structure
-        if m > 0 and 0 <= r <= m:
-            # Generate partitions based on the cosets of the Reed-Muller code
-            # This is a simplified approach - actual implementation would be more involved
-
-            # For each information bit
-            for i in range(self.code_dimension):
-                # Create a partition for this bit
-                partition = []
-
-                # In a real implementation, these would be carefully constructed
-                # based on the algebraic structure of Reed-Muller codes
-                for j in range(2 ** (m - 1)):
-                    # Create groups of positions that form checks for this bit
-                    positions = []
-                    for offset in range(2**r):
-                        pos = (j * 2**r + offset) % self.code_length
-                        positions.append(pos)
-
-                    # Convert to tensor
-                    partition.append(torch.tensor(positions, dtype=torch.long))
-
-                partitions.append(partition)
-
-        return partitions
+        # One partition per information bit, in generator-matrix row order
+        return [partition.to(torch.long) for partition in self.encoder.get_reed_partitions()]
 
     def forward(self, received: torch.Tensor, *args: Any, **kwargs: Any) -> Union[torch.Tensor, Tuple[torch.Tensor, torch.Tensor]]:
         """Decode received values using the Reed majority-logic algorithm.
@@ -247,85 +184,36 @@ class ReedMullerDecoder(BaseBlockDecoder[ReedMullerCodeEncoder]):
                 else:  # Handle the case when r_block has shape [batch, code_length]
                     r = r_block[i, :]
 
-                """
-                # Convert to binary for hard decoding or compute hard decisions for soft decoding
+                # Hard decisions of the received word; updated as bits are decoded
                 if self.input_type == "hard":
-                    bx = r.clone()
+                    bx = r.to(torch.int)
                 else:  # self.input_type == "soft"
                     bx = (r < 0).to(torch.int)
-                """
+                    reliabilities = torch.abs(r)
+
+                generator = self.encoder.generator_matrix.to(torch.int).to(received.device)
 
                 # Decode using Reed algorithm
                 u_hat = torch.zeros(self.code_dimension, dtype=torch.int, device=received.device)
 
                 # Process each bit position using its corresponding partition
                 for j, partition in enumerate(self._reed_partitions):
-                    if j >= self.code_dimension:
-                        break
+                    partition = partition.to(received.device)
 
-                    # For hard decision decoding
+                    # Parity of the current word over each group of the partition
+                    checksums = bx[partition].sum(dim=1) % 2
+
                     if self.input_type == "hard":
-                        # Calculate checksums for each group in the partition
-                        checksums = []
-                        for group in partition:
-                            # Ensure the group indices are valid
-                            valid_indices = group[group < r.shape[0]]
-                            if len(valid_indices) == 0:
-                                continue
-
-                            # Take relevant positions and compute parity
-                            # Use indexing to select elements from the 1D tensor
-                            group_bits = r[valid_indices].to(torch.int)
-                            checksum = torch.sum(group_bits) % 2
-                            checksums.append(checksum.item())  # Use .item() to convert tensor to scalar
-
-                        # Skip if no valid checksums
-                        if not checksums:
-                            continue
-
-                        # Convert to tensor
-                        checksums = torch.tensor(checksums, device=received.device)
-
                         # Make majority decision
-                        u_hat[j] = (torch.sum(checksums) > len(checksums) // 2).to(torch.int)
-
-                    # For soft decision decoding
+                        u_hat[j] = (torch.sum(checksums) > checksums.numel() // 2).to(torch.int)
                     else:  # self.input_type == "soft"
-                        # Calculate checksums and minimum reliabilities for each group
-                        checksums = []
-                        min_reliabilities = []
-
-                        for group in partition:
-                            # Ensure the group indices are valid
-                            valid_indices = group[group < r.shape[0]]
-                            if len(valid_indices) == 0:
-                                continue
-
-                            # Take relevant positions
-                            group_bits = (r[valid_indices] < 0).to(torch.int)
-                            group_reliabilities = torch.abs(r[valid_indices])
-
-                            # Compute parity of hard decisions
-                            checksum = torch.sum(group_bits) % 2
-                            checksums.append(checksum.item())  # Use .item() to convert tensor to scalar
-
-                            # Find minimum reliability in this group
-                            min_reliability = torch.min(group_reliabilities)
-                            min_reliabilities.append(min_reliability.item())  # Use .item() to convert tensor to scalar
-
-                        # Skip if no valid checksums
-                        if not checksums:
-                            continue
-
-                        # Convert to tensors
-                        checksums = torch.tensor(checksums, device=received.device)
-                        min_reliabilities = torch.tensor(min_reliabilities, device=received.device)
-
-                        # Calculate decision variable
-                        decision_var = torch.sum((1 - 2 * checksums) * min_reliabilities)
-
-                        # Make decision
+                        # Weight each check sum by the least reliable position it involves
+                        min_reliabilities = reliabilities[partition].min(dim=1).values
+                        decision_var = torch.sum((1 - 2 * checksums).to(r.dtype) * min_reliabilities)
                         u_hat[j] = (decision_var < 0).to(torch.int)
+
+                    # Remove the decoded term before moving to lower-order bits
+                    bx = bx ^ (u_hat[j] * generator[j])
 
                 # Store the decoded message
                 decoded[i] = u_hat
